@@ -964,7 +964,14 @@ impl NodeDeletionEntry {
     ) -> std::result::Result<(), rusqlite::Error> {
         let query = "DELETE FROM _node WHERE room_id=? AND id=?";
         let mut stmt = conn.prepare_cached(query)?;
+        let mut stored_stmt =
+            conn.prepare_cached("SELECT mdate FROM _node WHERE room_id=? AND id=?")?;
         for node in nodes {
+            //the stored version can be older than the deleted one: its day looses an entry too
+            let mut stored = stored_stmt.query((node.room_id, node.id))?;
+            while let Some(row) = stored.next()? {
+                daily_log.set_need_update(node.room_id, &node.entity, row.get(0)?);
+            }
             stmt.execute((node.room_id, node.id))?;
             node.write(conn)?;
             daily_log.set_need_update(node.room_id, &node.entity, node.deletion_date);
